@@ -1,0 +1,15 @@
+// SPDX-FileCopyrightText: 2026 The Pion community <https://pion.ly>
+// SPDX-License-Identifier: MIT
+
+//go:build !verif
+
+// Package verifhook provides named yield points and behaviour switches used
+// only by the verification harness. Without the verif build tag every function
+// here is an empty, inlinable stub.
+package verifhook
+
+// Point is a named yield point (no-op without the verif tag).
+func Point(string) {}
+
+// Skip reports whether the named behaviour switch is on (never, without the verif tag).
+func Skip(string) bool { return false }
